@@ -22,6 +22,16 @@ type Scenario struct {
 	// cache prunes little there and std context state is not hashed).
 	NoCache bool
 	StepCap int
+	// Reverse explores relative to the reversed default schedule (see sched.Opts.Reverse).
+	Reverse bool
+}
+
+// Reversed returns a twin of the scenario explored relative to the reversed default schedule.
+func (s *Scenario) Reversed() *Scenario {
+	t := *s
+	t.Name = s.Name + " <reversed default schedule>"
+	t.Reverse = true
+	return &t
 }
 
 // Plan says how deep a scenario is explored in a tier.
@@ -156,3 +166,22 @@ func Registry() map[string]*Check { return registry }
 // SelfTestScenarios are registered by checks that volunteer small scenarios for
 // the engine self-test (outcome set with the cache == outcome set without it).
 var SelfTestScenarios []*Scenario
+
+// WithReversed appends, for every plan, a twin explored relative to the reversed default
+// schedule, restricted to the bounds <= maxBound (and >= 0).
+func WithReversed(plans []Plan, maxBound int) []Plan {
+	out := append([]Plan{}, plans...)
+	for _, p := range plans {
+		var bs []int
+		for _, b := range p.Bounds {
+			if b >= 0 && b <= maxBound {
+				bs = append(bs, b)
+			}
+		}
+		if len(bs) == 0 {
+			continue
+		}
+		out = append(out, Plan{Scen: p.Scen.Reversed(), Bounds: bs, Split: p.Split && bs[len(bs)-1] >= 2})
+	}
+	return out
+}
